@@ -12,21 +12,43 @@ use noodles_sam::{
 use self::field::decode_field;
 
 /// BAM record data.
-pub struct Data<'r>(&'r [u8]);
+pub struct Data<'r> {
+    src: &'r [u8],
+    has_overflowing_cigar: bool,
+}
 
 impl<'r> Data<'r> {
     pub(crate) fn new(src: &'r [u8]) -> Self {
-        Self(src)
+        Self {
+            src,
+            has_overflowing_cigar: false,
+        }
+    }
+
+    // Creates data from a raw data block whose `CG` field holds the CIGAR operations of the record
+    // (§ 4.2.2 "N_CIGAR_OP field" (2023-11-16)). This field is not a data field.
+    pub(crate) fn with_overflowing_cigar(src: &'r [u8]) -> Self {
+        Self {
+            src,
+            has_overflowing_cigar: true,
+        }
     }
 
     /// Returns a byte slice of the raw data.
+    ///
+    /// This is the data block as it is in the record. It includes the `CG` field when it is used
+    /// to store the CIGAR operations.
     pub fn as_bytes(&self) -> &'r [u8] {
-        self.0
+        self.src
     }
 
     /// Returns whether there are any fields.
     pub fn is_empty(&self) -> bool {
-        self.0.is_empty()
+        if self.has_overflowing_cigar {
+            self.iter().next().is_none()
+        } else {
+            self.src.is_empty()
+        }
     }
 
     /// Returns the value of the given tag.
@@ -50,7 +72,8 @@ impl<'r> Data<'r> {
 
     /// Returns an iterator over all tag-value pairs.
     pub fn iter(&self) -> impl Iterator<Item = io::Result<(Tag, Value<'r>)>> + 'r {
-        let mut src = self.0;
+        let mut src = self.src;
+        let has_overflowing_cigar = self.has_overflowing_cigar;
 
         iter::from_fn(move || {
             if src.is_empty() {
@@ -67,6 +90,7 @@ impl<'r> Data<'r> {
                 Some(result)
             }
         })
+        .filter(move |result| !(has_overflowing_cigar && matches!(result, Ok((Tag::CIGAR, _)))))
     }
 }
 
@@ -99,7 +123,7 @@ impl<'r> sam::alignment::record::Data<'r> for Data<'r> {
 
 impl AsRef<[u8]> for Data<'_> {
     fn as_ref(&self) -> &[u8] {
-        self.0
+        self.src
     }
 }
 
@@ -109,10 +133,14 @@ impl<'a> TryFrom<Data<'a>> for sam::alignment::record_buf::Data {
     fn try_from(bam_data: Data<'a>) -> Result<Self, Self::Error> {
         use crate::record::codec::decoder::read_data;
 
-        let mut src = bam_data.0;
+        let mut src = bam_data.src;
         let mut sam_data = Self::default();
         read_data(&mut src, &mut sam_data)
             .map_err(|e| io::Error::new(io::ErrorKind::InvalidData, e))?;
+
+        if bam_data.has_overflowing_cigar {
+            sam_data.remove(&Tag::CIGAR);
+        }
 
         Ok(sam_data)
     }
